@@ -11,8 +11,9 @@ summary. Exit 1 if a seed is no longer detected.
 import re, json, os, subprocess, sys, time, shutil
 
 ROOT = os.path.dirname(os.path.dirname(os.path.abspath(__file__)))
-WT = "/tmp/seedmatrix"
-WORK = "/tmp/seedmatrix-work"
+WT = os.environ.get("SEEDMATRIX_WT", "/tmp/seedmatrix")  # (set both to run several lanes in parallel)
+WORK = WT + "-work"
+OUT = os.environ.get("SEEDMATRIX_OUT")  # a lane writes its own file; merge into MATRIX.json afterwards
 
 
 def main():
@@ -21,7 +22,7 @@ def main():
     if not os.path.isdir(WT):
         subprocess.check_call(["git", "-C", "/repo", "worktree", "add", "--detach", WT, head], stdout=subprocess.DEVNULL, stderr=subprocess.DEVNULL)
     subprocess.check_call("git checkout -- . && git checkout -q --detach " + head, cwd=WT, shell=True)
-    out_path = os.path.join(ROOT, "seeded", "MATRIX.json")
+    out_path = OUT or os.path.join(ROOT, "seeded", "MATRIX.json")
     matrix = json.load(open(out_path)) if os.path.exists(out_path) and sys.argv[1:] else {}
     missed = []
     for sid in ids:
